@@ -210,7 +210,11 @@ def _zero(e, ctx):
 
 @handler("ScalarValue")
 def _scalar(e, ctx):
-    return const(ctx, complex(e._value))
+    try:
+        v = complex(e._value)
+    except OverflowError:
+        raise IllConditioned("integer literal too large for floating point")
+    return const(ctx, v)
 
 
 @handler("Identity")
